@@ -53,7 +53,8 @@ class PHYResetController(Elaboratable):
         m = Module()
 
         # Counter that stores how many cycles we've spent in reset.
-        cycles_in_reset = Signal(range(0, self.reset_length_cycles))
+        # It is shared by the reset and the stop phases, so it must be able to count the longer of the two.
+        cycles_in_reset = Signal(range(0, max(self.reset_length_cycles, self.stop_length_cycles)))
 
         reset_state = 'RESETTING' if self.power_on_reset else 'IDLE'
         with m.FSM(init=reset_state, domain='sync') as fsm:
